@@ -18,7 +18,25 @@ Pipeline (see DESIGN.md section 5, C13):
            (exact, via a stream -> value table, i.e. all pairs), and different
            128-bit hashes.
      The model's token stream is compared with the recorded one as drift only.
+  5. Length encoding (the clause "unambiguous byte stream" rests on it):
+     specs/StableHashLenCode.tla states that the byte strings written by
+     `write_length_prefix` must form a PREFIX CODE and derives unique
+     decodability of composite values; the encoder is a constant operator
+     (fixed width = as coded, compact with escape, ...); the broken instances
+     (off-by-one escape threshold, no terminator, truncation) must FAIL with the
+     colliding pair of values.  specs/StableHashLenGen.tla prints the boundary
+     universe (0..300, 2^8/16/32 +-2, real values, composite values cut around
+     the boundaries); hash_replay --lens records the bytes the REAL code writes
+     (recording hasher, default trait method) and hashes the real values;
+     specs/StableHashLenTrace.tla validates the recorded bytes (prefix code,
+     distinct values => distinct streams, all pairs).  For every recorded
+     encoding that is a prefix of another the harness constructs the colliding
+     composite values and hashes them with the real Sip128 hasher under two
+     seeds: unequal values with one stream / equal fingerprints are reported as
+     `ambiguous_stream` (a VIOLATION); the prefix relation alone is the cause,
+     not the verdict.
 """
+import concurrent.futures
 import json
 import os
 import random
@@ -202,6 +220,227 @@ def anti_vacuity(wd):
     return res
 
 
+# ------------------------------------------------------ length-encoding side
+
+LENCODE_ACTIONS = ["PushA", "PushB", "PushOuter", "PushInner"]
+LENCODE_INVS = ["TypeOK", "DecoderSound", "PrefixCode", "UniquelyDecodable", "StreamPrefixFree", "Derivation"]
+LENCODE_GOOD = {"quick": [("StableHashLenCode", "fixed width (as coded)"), ("StableHashLenCodeCompact", "compact, escape threshold n < Esc")],
+                "thorough": [("StableHashLenCodeB4", "fixed width, 4 byte values"), ("StableHashLenCodeCompactB4", "compact, 4 byte values"),
+                             ("StableHashLenCodeVarContB4", "continuation-flag varint, 4 byte values")]}
+LENCODE_MUT = {"quick": [("StableHashLenCodeOffByOne", "compact, off-by-one threshold n <= Esc"),
+                         ("StableHashLenCodeVarNoTerm", "variable length without terminator"),
+                         ("StableHashLenCodeTruncated", "one byte, n mod B")],
+               "thorough": [("StableHashLenCodeOffByOneB4", "compact off-by-one, 4 byte values")]}
+LENS_TLC_MAX_STREAM = 1400   # bytes; longer recorded streams are judged by the Python side only
+
+
+def lencode_design(wd, tier, coverage=True):
+    """StableHashLenCode.tla: sound encoders pass PrefixCode / UniquelyDecodable /
+    StreamPrefixFree / Derivation; every broken encoder must yield a colliding pair.
+    Design level only."""
+    good = LENCODE_GOOD["quick"] + (LENCODE_GOOD["thorough"] if tier != "quick" else [])
+    mut = LENCODE_MUT["quick"] + (LENCODE_MUT["thorough"] if tier != "quick" else [])
+
+    def one(cfg, is_good):
+        # the broken instances run with one worker: a deterministic (shortest, first) counterexample
+        return cfg, vp.tlc("StableHashLenCode", cfg + ".cfg", workers=(2 if tier == "quick" else 4) if is_good else 1, timeout=900,
+                           coverage=is_good and coverage, metadir=os.path.join(wd, "meta-" + cfg), check_ok=False)
+
+    with concurrent.futures.ThreadPoolExecutor(max_workers=3 if tier == "quick" else 2) as ex:
+        res = dict(ex.map(lambda a: one(*a), [(c, True) for c, _ in good] + [(c, False) for c, _ in mut]))
+    ev = {"instances": {}, "mutations": {}, "invariants": LENCODE_INVS}
+    for cfg, what in good:
+        r = res[cfg]
+        if not r["ok"] or r["invariant_violated"]:
+            raise vp.ToolError(f"{cfg}: sound length encoder does not pass in the model (spec/bounds changed):\n" + r["out"][-3000:])
+        cov = vp.tlc_coverage(r["out"]) if coverage else {}
+        dead = [a for a in LENCODE_ACTIONS if coverage and cov.get(a, (0, 0))[1] == 0]
+        if dead:
+            raise vp.ToolError(f"{cfg}: actions never taken: {dead}")
+        ev["instances"][cfg] = {"encoder": what, "states": r["distinct"], "transitions": r["generated"], "depth": r["depth"],
+                                "actions": {a: cov.get(a, (0, 0))[1] for a in LENCODE_ACTIONS} if coverage else {}}
+    for cfg, what in mut:
+        r = res[cfg]
+        if "UniquelyDecodable" not in r["invariant_violated"]:
+            raise vp.ToolError(f"{cfg}: expected UniquelyDecodable to be violated in the model:\n" + r["out"][-2000:])
+        last = {}
+        for k, v in re.findall(r"/\\ (shape|value|stream|decodings|n_decodings|enc_not_prefix_free) = ((?:.|\n  )*)", r["out"]):
+            last[k] = re.sub(r"\s+", " ", v)
+        if int(last.get("n_decodings", "0")) < 2:
+            raise vp.ToolError(f"{cfg}: counterexample without a colliding pair: {last}")
+        ev["mutations"][cfg] = {"encoder": what, "violated": "UniquelyDecodable", "states_until_cex": r["distinct"],
+                                "shape": last.get("shape"), "colliding_values": last.get("decodings"), "one_stream": last.get("stream"),
+                                "lengths_whose_encoding_is_a_prefix_of_another": last.get("enc_not_prefix_free", "")[:300]}
+    return ev
+
+
+def lens_generate(tier, wd):
+    """Boundary universe from specs/StableHashLenGen.tla -> harness input file."""
+    r = vp.tlc("StableHashLenGen", "StableHashLenGen.cfg" if tier == "quick" else "StableHashLenGenThorough.cfg",
+               workers=1, timeout=600, metadir=os.path.join(wd, "meta-lensgen"))
+    if not r["ok"]:
+        raise vp.ToolError("StableHashLenGen failed:\n" + r["out"][-3000:])
+    items, seen = [], set()
+    for o in tlc_lines(r["out"]):
+        if o["k"] == "len":
+            o = {"k": "len", "n": str(o["d"] if o["p"] == 0 else 2 ** o["p"] + o["d"])}
+        elif o["k"] == "comp" and isinstance(o["ls"], dict):
+            o["ls"] = []
+        k = json.dumps(o, sort_keys=True)
+        if k not in seen:
+            seen.add(k)
+            items.append(o)
+    order = {"len": 0, "val": 1, "comp": 2}
+    items.sort(key=lambda o: (order[o["k"]], o.get("ty", ""), int(o.get("n", 0)), o.get("ls", [])))
+    if not items:
+        raise vp.ToolError("StableHashLenGen printed nothing")
+    path = os.path.join(wd, "lens.in.ndjson")
+    with open(path, "w") as f:
+        for o in items:
+            f.write(json.dumps(o) + "\n")
+    return path, items, {"items": len(items), "lengths": sum(1 for o in items if o["k"] == "len"),
+                         "real_values": sum(1 for o in items if o["k"] == "val"),
+                         "composite_values": sum(1 for o in items if o["k"] == "comp"), "tlc_states": r["distinct"]}
+
+
+def lens_harness(bindir, inp, seed, wd, tag="lens", mutant=None):
+    out = os.path.join(wd, f"{tag}.rec.ndjson")
+    if os.path.exists(out):
+        os.remove(out)
+    vp.run_subject([os.path.join(bindir, "hash_replay"), "--lens", inp, "--out", out, "--seed", str(seed)]
+                   + (["--mutant", mutant] if mutant else []), timeout=1500)
+    return out
+
+
+def lens_trace_events(recpath):
+    """Recorded lens run -> events of StableHashLenTrace.tla (streams as byte arrays)."""
+    ev, skipped = [], 0
+    for line in open(recpath):
+        r = json.loads(line)
+        if r.get("lenrec"):
+            if "enc" in r:
+                ev.append({"e": "len", "n": r["n"], "src": r["src"], "enc": list(bytes.fromhex(r["enc"]))})
+        elif "obs" in r:
+            for o in r["obs"]:
+                if len(o["s"]) > 2 * LENS_TLC_MAX_STREAM or "{" in o["s"]:
+                    skipped += 1
+                    continue
+                ev.append({"e": "val", "ty": r["ty"] + o["x"], "abs": o["abs"], "s": list(bytes.fromhex(o["s"]))})
+    return ev, skipped
+
+
+def lens_tlc(events, wd, tag="lens"):
+    """Validate the events with TLC; returns the result object written by the trace spec."""
+    trace = os.path.join(wd, f"{tag}.trace.ndjson")
+    outp = os.path.join(wd, f"{tag}.trace.out.json")
+    with open(trace, "w") as f:
+        for e in events:
+            f.write(json.dumps(e) + "\n")
+    if os.path.exists(outp):
+        os.remove(outp)
+    r = vp.tlc("StableHashLenTrace", "StableHashLenTrace.cfg", env={"TRACE": trace, "OUT": outp}, workers=1, timeout=1200,
+               metadir=os.path.join(wd, "meta-" + tag + "-trace"), xmx="6g")
+    if not r["ok"] or not os.path.exists(outp):
+        raise vp.ToolError("StableHashLenTrace did not consume the trace:\n" + r["out"][-3000:])
+    res = json.load(open(outp))
+    if res["events"] != len(events):
+        raise vp.ToolError(f"StableHashLenTrace consumed {res['events']} of {len(events)} events")
+    res["tlc_states"] = r["distinct"]
+    res["wall_s"] = round(r["wall_s"], 1)
+    return res
+
+
+def py_prefix_pairs(events):
+    """Independent computation of the prefix relation among recorded encodings
+    (cross-check of the trace spec): set of (n_short, n_long)."""
+    encs = {}
+    for e in events:
+        if e["e"] == "len":
+            encs.setdefault(bytes(e["enc"]), set()).add(e["n"])
+    keys = sorted(encs)
+    out = set()
+    for i, a in enumerate(keys):
+        for n in encs[a]:
+            out.update((n, m) for m in encs[a] if m != n)
+        for b in keys[i + 1:]:
+            if not b.startswith(a):
+                break  # sorted: every extension of `a` follows it directly
+            out.update((n, m) for n in encs[a] for m in encs[b])
+    return out
+
+
+def lens_check(j, items, events, skipped, tres):
+    """Mechanism-level results of the lens run (never a verdict by themselves) +
+    consistency of the three observers (harness, TLC trace spec, Python)."""
+    asked = {o["n"] for o in items if o["k"] == "len"}
+    got = {r["n"] for r in j.lenrecs if r["src"] == "call" and "enc" in r}
+    unfit = {r["n"] for r in j.lenrecs if r.get("skipped")}
+    if asked - got - unfit:
+        raise vp.ToolError(f"lens run: lengths without a recorded encoding: {sorted(asked - got - unfit)[:10]}")
+    kinds = {}
+    for v in tres["viol"]:
+        kinds.setdefault(v["kind"], []).append(v)
+    if "malformed" in kinds:
+        raise vp.ToolError(f"StableHashLenTrace: malformed events {kinds['malformed'][:3]}")
+    tlc_pairs = {(events[v["short"] - 1]["n"], events[v["long"] - 1]["n"]) for v in kinds.get("not_prefix_code", [])}
+    if tlc_pairs != py_prefix_pairs(events):
+        raise vp.ToolError(f"trace spec and Python disagree on the prefix relation of the recorded encodings: "
+                           f"{sorted(tlc_pairs ^ py_prefix_pairs(events))[:6]}")
+    # ambiguous streams: TLC (on the streams it was given) must agree with the Judge
+    tlc_amb = {(events[v["short"] - 1]["ty"], frozenset((events[v["short"] - 1]["abs"], events[v["long"] - 1]["abs"])))
+               for v in kinds.get("ambiguous_stream", [])}
+    small = {(f["a"]["group"], frozenset((f["a"]["abs"], f["b"]["abs"]))) for f in j.fails
+             if f["kind"] == "ambiguous_stream" and f["a"]["proc"] == "lens" and len(f["a"]["stream"]) < 400
+             and f["a"]["group"].split(":")[0] in ("len", "adv")}
+    if len(j.fails) < 50 and not small <= tlc_amb:
+        raise vp.ToolError(f"Judge found ambiguous streams that the trace spec did not: {sorted(map(str, small - tlc_amb))[:3]}")
+    if tlc_amb and not any(f["kind"] == "ambiguous_stream" for f in j.fails):
+        raise vp.ToolError(f"trace spec found ambiguous streams that the Judge did not: {sorted(map(str, tlc_amb))[:3]}")
+    drift = []
+    for v in kinds.get("length_not_a_function", []):
+        a, b = events[v["short"] - 1], events[v["long"] - 1]
+        drift.append({"kind": "length_prefix_differs_by_call_site", "n": a["n"], a["src"]: bytes(a["enc"]).hex(), b["src"]: bytes(b["enc"]).hex()})
+    for r in j.lenrecs:
+        if r.get("payload_ok") is False:
+            drift.append({"kind": "value_stream_is_not_prefix_plus_payload", "n": r["n"], "src": r["src"]})
+    prefix = [{"n": a, "m": b} for a, b in sorted(tlc_pairs, key=lambda p: (int(p[0]), int(p[1])))]
+    collided = [a for a in j.advs if a.get("constructed") and a.get("collide") and a.get("unequal")]
+    if prefix and not collided:
+        # the recorded length code is not a prefix code, but no colliding REAL values were produced:
+        # a mechanism-level fact without a property-level witness is not reported as a verdict
+        raise vp.ToolError("the length encodings recorded from the code under test are NOT a prefix code "
+                           f"(e.g. {prefix[:3]}), but the harness could not construct colliding values "
+                           f"({[a.get('why') for a in j.advs if not a.get('constructed')][:3]}): extend hash_replay construct()")
+    srcs = {}
+    for r in j.lenrecs:
+        if "enc" in r:
+            srcs[r["src"]] = srcs.get(r["src"], 0) + 1
+    widths = sorted({len(e["enc"]) for e in events if e["e"] == "len"})
+    return {
+        "encodings_recorded": len([e for e in events if e["e"] == "len"]),
+        "distinct_lengths": len(got), "lengths_not_representable": sorted(unfit),
+        "by_source": srcs, "encoding_widths_bytes": widths,
+        "largest_length": str(max(int(n) for n in got)),
+        "prefix_code": not prefix, "prefix_pairs": len(prefix), "prefix_pairs_first": prefix[:5],
+        "trace_events": tres["events"], "trace_states": tres["tlc_states"], "trace_wall_s": tres["wall_s"],
+        "encoding_pairs_compared": tres["stats"]["len_pairs"], "value_streams_validated": tres["stats"]["vals"],
+        "value_pairs_compared": tres["stats"]["val_pairs"], "streams_too_long_for_tlc": skipped,
+        "trace_violation_kinds": {k: len(v) for k, v in kinds.items()},
+        "adversarial": dict(j.advsummary or {}, collided=len(collided),
+                            first=[{k: a[k] for k in ("n", "m", "ty", "values")} for a in collided[:2]]),
+        "drift": drift[:5], "drift_count": len(drift),
+    }
+
+
+def lens_pipeline(bindir, tier, seed, wd, mutant=None, tag="lens"):
+    """Returns (recorded file, items, events, skipped, trace result, generator stats)."""
+    inp, items, gst = lens_generate(tier, wd)
+    rec = lens_harness(bindir, inp, seed, wd, tag=tag, mutant=mutant)
+    events, skipped = lens_trace_events(rec)
+    tres = lens_tlc(events, wd, tag=tag)
+    return rec, items, events, skipped, tres, gst
+
+
 # ---------------------------------------------------------------- replay side
 
 def run_harness(bindir, cases, seed, nrand, wd, tag="run", mutant=None):
@@ -237,6 +476,10 @@ class Judge:
         self.summaries = []
         self.errors = []
         self.cross_type = {"equal": 0, "different": 0}
+        self.lenrecs = []      # recorded length encodings (hash_replay --lens)
+        self.advs = []         # adversarial constructions
+        self.advsummary = None
+        self.lens_summary = None
 
     def fail(self, kind, what, a, b):
         if len(self.fails) < 50:
@@ -249,8 +492,20 @@ class Judge:
                 continue
             r = json.loads(line)
             if r.get("summary"):
-                self.summaries.append(r)
+                if proc == "lens":
+                    self.lens_summary = r
+                else:
+                    self.summaries.append(r)
                 self.evals += r["evals"]
+                continue
+            if r.get("lenrec"):
+                self.lenrecs.append(r)
+                continue
+            if r.get("adv"):
+                self.advs.append(r)
+                continue
+            if r.get("advsummary"):
+                self.advsummary = r
                 continue
             if r.get("err"):
                 self.errors.append((r["i"], r["ty"], r["err"]))
@@ -270,14 +525,14 @@ class Judge:
                 if c is None:
                     hid = ("r", nrand, k)
                 wit = {"proc": proc, "ty": r["ty"], "group": group, "abs": abs_, "forms": o["forms"][:4],
-                       "hist": c["hist"] if c else f"rand#{nrand}", "stream": o["s"][:400],
+                       "hist": c["hist"] if c else f"{'lens' if proc == 'lens' else 'rand'}#{nrand}", "stream": o["s"][:400],
                        "h0": o["h0"], "h1": o["h1"]}
                 self.obs += len(o["forms"])
                 self.forms.update(o["forms"])
                 self.groups.add(group)
                 ka = (group, abs_)
                 if c is None:  # random universe: the histories are the collapsed forms history0..3
-                    self.hists.setdefault(ka, set()).update(("r", nrand, f) for f in o["forms"])
+                    self.hists.setdefault(ka, set()).update(("l" if proc == "lens" else "r", nrand, f) for f in o["forms"])
                 else:
                     self.hists.setdefault(ka, set()).add(hid)
                 if o["ord"]:
@@ -334,10 +589,19 @@ class Judge:
         }
 
 
-def judge(cases, parent, child):
+def judge(cases, parent, child, lens=None):
     j = Judge(cases)
     j.feed(parent, "parent")
     j.feed(child, "child")
+    if lens:
+        j.feed(lens, "lens")
+        ls = j.lens_summary
+        if not ls or j.advsummary is None:
+            raise vp.ToolError("hash_replay --lens: missing summary record (crashed?)")
+        if ls["panics"]:
+            raise vp.ToolError(f"hash_replay --lens panicked: {ls.get('panic')}")
+        if ls["recorder_mismatch"] or ls["unfolded_bags"]:
+            raise vp.ToolError(f"recording hasher is not faithful to Sip128Hasher (lens run): {ls}")
     if len(j.summaries) != 2:
         raise vp.ToolError("hash_replay: missing summary record (crashed?)")
     for s in j.summaries:
@@ -374,6 +638,7 @@ def finish(tier, seed, t0, j, mc, av, gstats, verdict, extra=None):
         verdict.violation(f"{f['kind']}: {f['what']}", {
             "property": PID, "seed": seed, "mutant": os.environ.get("VERIF_C13_MUTANT") or None, "kind": f["kind"], "what": f["what"], "a": f["a"], "b": f["b"],
             "cases": [{"ty": w["ty"], "hist": w["hist"], "abs": w["abs"]} for w in (f["a"], f["b"]) if isinstance(w["hist"], list)],
+            "lens": f["a"]["proc"] == "lens", "tier": tier,
         })
     cnt = j.counts()
     samples = []
@@ -419,6 +684,8 @@ def finish(tier, seed, t0, j, mc, av, gstats, verdict, extra=None):
         "usize/isize/Discriminant widths and endianness are those of this target (x86_64 little endian); cross-platform stability is not examined",
         "the recording hasher is checked on every evaluation to yield the same 128-bit value as a plain Sip128Hasher",
         "TLC results are design-level statements about the framing rules within the bounds (MaxLen 2, two element values); the code is judged only by replay",
+        "length encoding: the prefix-code requirement is validated on the recorded encodings of the generated boundary set (dense 0..300, 2^p +- 2), "
+        "not on all 2^64 lengths; lengths that cannot be materialised as values (>= 2^18) enter only as bare write_length_prefix calls",
     ])
     vp.log(f"[C13] obs={j.obs} classes={cnt['classes']} pairs={cnt['unequal_pairs_compared']} drift={len(j.drift)} fails={len(j.fails)} rc={rc}")
     return rc
@@ -432,14 +699,24 @@ def run(tier, seed):
     if tier != "quick":  # three element values: ~1M states, ~36M transitions, ~1 min
         mc["thorough"] = model_check(wd, coverage=False, cfg="StableHashThorough.cfg")
     av = anti_vacuity(wd)
+    # VERIF_C13_MUTANT=nolen|order|lenoffbyone swaps in a deliberately wrong StableHash impl / hasher
+    # that lives in the harness (never set in normal use): demonstrates the exit-1 / replay path.
+    mutant = os.environ.get("VERIF_C13_MUTANT") or None
+    # length encoding: design instances in the background, binding on the real code meanwhile
+    with concurrent.futures.ThreadPoolExecutor(max_workers=1) as ex:
+        design = ex.submit(lencode_design, wd, tier)
+        lens_rec, items, events, skipped, tres, lgst = lens_pipeline(bindir, tier, seed, wd, mutant=mutant if mutant == "lenoffbyone" else None)
+        lc = design.result()
     cases, gstats = generate(tier, seed, wd)
     nrand = 60 if tier == "quick" else 3000
-    # VERIF_C13_MUTANT=nolen|order swaps in a deliberately wrong StableHash impl that lives
-    # in the harness (never set in normal use): demonstrates the exit-1 / replay path.
-    mutant = os.environ.get("VERIF_C13_MUTANT") or None
     parent, child = run_harness(bindir, cases, seed, nrand, wd, mutant=mutant)
-    j = judge(cases, parent, child)
-    return finish(tier, seed, t0, j, mc, av, gstats, vp.Verdict(PID), extra={"mutant": mutant} if mutant else None)
+    j = judge(cases, parent, child, lens=lens_rec)
+    lc["generator"] = lgst
+    lc["binding"] = lens_check(j, items, events, skipped, tres)
+    extra = {"length_code": lc}
+    if mutant:
+        extra["mutant"] = mutant
+    return finish(tier, seed, t0, j, mc, av, gstats, vp.Verdict(PID), extra=extra)
 
 
 def replay(path):
@@ -450,6 +727,25 @@ def replay(path):
     cases = []
     for c in rp.get("cases", []):
         cases.append({"i": len(cases) + 1, "ty": c["ty"], "hist": c["hist"], "abs": c["abs"], "tok": "", "leaf": True, "src": "replay"})
+    if rp.get("lens"):
+        # witness from the length-encoding binding: record the encodings of the current tree again,
+        # rebuild the colliding values from them and hash them for real
+        m = rp.get("mutant") if rp.get("mutant") == "lenoffbyone" else None
+        rec, items, events, skipped, tres, _ = lens_pipeline(bindir, rp.get("tier", "quick"), rp.get("seed", 1), wd, mutant=m, tag="replay-lens")
+        j = Judge([])
+        j.feed(rec, "lens")
+        kinds = sorted({v["kind"] for v in tres["viol"]})
+        print(f"recorded encodings: {len(j.lenrecs)}, trace spec reports {kinds or 'nothing'}; adversarial constructions: {j.advsummary}")
+        hits = [f for f in j.fails if f["kind"] == rp["kind"]]
+        for f in hits[:3]:
+            print(f"REPRODUCED {f['kind']}: {f['what']}")
+            print("  a:", json.dumps(f["a"])[:800])
+            print("  b:", json.dumps(f["b"])[:800])
+        if hits:
+            print(f"VIOLATION property={PID} replay={path}")
+            return 1
+        print("not reproduced on the current tree")
+        return 0
     if not cases:
         print("replay file has no TLC histories (random-universe witness): re-run the check with VERIF_SEED=%s" % rp.get("seed"))
         return 2
@@ -471,7 +767,10 @@ def selftest(seed):
     made equal to another value's, (3) a deliberately wrong expectation (two
     different TLC values declared equal), (4) model mutations (switched-off rules),
     (5) drift stays drift, (6) wrong StableHash impls (harness-local mutants: no length
-    prefix / iteration-order dependent) hashed with the real hasher."""
+    prefix / iteration-order dependent) hashed with the real hasher, (7) broken length
+    encoders in the model, (8-10) an accepted lens trace, then one recorded encoding made a
+    prefix of another / one stream replaced, (11) a hasher with the off-by-one compact length
+    prefix on real values: colliding values constructed and hashed."""
     wd = vp.clean_workdir(PID + "-selftest")
     bindir = build()
     ok = True
@@ -543,5 +842,47 @@ def selftest(seed):
         print(f"selftest 6: mutant impl '{mutant}' on {ty} -> {sorted({f['kind'] for f in jm.fails})}"
               + (f"; e.g. {hit[0]['a']['abs']} vs {hit[0]['b']['abs']} stream {hit[0]['b']['stream']}" if hit else ""))
         ok &= bool(hit) and all(f["a"]["ty"].startswith(ty[:4]) for f in jm.fails)
+    # ---- length encoding
+    lc = lencode_design(wd, "quick", coverage=False)
+    for cfg, m in lc["mutations"].items():
+        print(f"selftest 7: {cfg} ({m['encoder']}) rejected by TLC: {m['violated']}; {m['shape']} values {m['colliding_values']} share the stream {m['one_stream']}")
+    ok &= len(lc["mutations"]) == 3
+    rec, items, events, skipped, tres, _ = lens_pipeline(bindir, "quick", seed, wd, tag="self-lens")
+    jl = judge(cases, parent, child, lens=rec)
+    b = lens_check(jl, items, events, skipped, tres)
+    print(f"selftest 8: accepted lens trace: {b['encodings_recorded']} encodings ({b['by_source']}), {b['encoding_pairs_compared']} pairs, "
+          f"{b['value_streams_validated']} value streams / {b['value_pairs_compared']} pairs, violations {b['trace_violation_kinds']}, prefix code {b['prefix_code']}")
+    ok &= b["prefix_code"] and not tres["viol"] and not jl.fails
+    # corrupt ONE recorded encoding so that it becomes a proper prefix of another one
+    calls = [k for k, e in enumerate(events) if e["e"] == "len" and e["src"] == "call"]
+    k1, k2 = rnd.sample(calls, 2)
+    cut = rnd.randrange(1, len(events[k2]["enc"]))
+    bad = [dict(e) for e in events]
+    bad[k1]["enc"] = events[k2]["enc"][:cut]
+    tb = lens_tlc(bad, wd, tag="self-lens-corrupt")
+    hit = [v for v in tb["viol"] if v["kind"] == "not_prefix_code" and v["short"] == k1 + 1 and v["long"] == k2 + 1]
+    print(f"selftest 9: encoding of n={events[k1]['n']} replaced by the first {cut} byte(s) of the encoding of n={events[k2]['n']} "
+          f"-> trace spec: { {kk: sum(1 for v in tb['viol'] if v['kind'] == kk) for kk in sorted({v['kind'] for v in tb['viol']})} }"
+          + (f", reports (short=event {k1 + 1}, long=event {k2 + 1})" if hit else ", the corrupted pair is NOT reported"))
+    ok &= bool(hit)
+    # a stream of a composite value replaced by the stream of another value of its type
+    vals = [k for k, e in enumerate(events) if e["e"] == "val" and e["ty"] == "len:pair_vec_u8"]
+    k1, k2 = rnd.sample(vals, 2)
+    bad = [dict(e) for e in events]
+    bad[k1]["s"] = events[k2]["s"]
+    tb = lens_tlc(bad, wd, tag="self-lens-corrupt2")
+    hit = [v for v in tb["viol"] if v["kind"] == "ambiguous_stream" and {v["short"], v["long"]} == {k1 + 1, k2 + 1}]
+    print(f"selftest 10: stream of composite value event {k1 + 1} replaced by the one of event {k2 + 1} -> {sorted({v['kind'] for v in tb['viol']})}")
+    ok &= bool(hit)
+    # the whole path on real hashing: harness-local hasher whose length prefix is the off-by-one compact code
+    rec, items, events, skipped, tres, _ = lens_pipeline(bindir, "quick", seed, wd, mutant="lenoffbyone", tag="self-lens-mutant")
+    jm = judge(cases, parent, child, lens=rec)
+    bm = lens_check(jm, items, events, skipped, tres)
+    amb = [f for f in jm.fails if f["kind"] == "ambiguous_stream" and f["a"]["group"].startswith("adv:")]
+    print(f"selftest 11: hasher mutant 'lenoffbyone': prefix code {bm['prefix_code']} ({bm['prefix_pairs']} pairs, first {bm['prefix_pairs_first'][:2]}), "
+          f"constructed {bm['adversarial']['constructed']}, colliding {bm['adversarial']['collided']}; Judge: {sorted({f['kind'] + '@' + f['a']['group'] for f in jm.fails})}")
+    if amb:
+        print(f"   e.g. {amb[0]['a']['group']}: lengths {amb[0]['a']['abs'].split('|')[0]} vs {amb[0]['b']['abs'].split('|')[0]}, one stream, h0 {amb[0]['a']['h0']} = {amb[0]['b']['h0']}")
+    ok &= bool(amb) and not bm["prefix_code"] and all(f["a"]["group"].startswith("adv:") for f in jm.fails)
     print("SELFTEST", "OK" if ok else "FAILED")
     return 0 if ok else 2
